@@ -96,6 +96,7 @@ class Scenario:
         self.L = self.md.L
         self.peers = {}
         self.hbh = 0x1000
+        self.own_done = []
 
     def open(self):
         w, h, M = self.w, self.h, self.M
@@ -214,7 +215,7 @@ class Scenario:
         run.hashes.add(h64(self.cfg_name, cls.__name__, tuple(rm), realm, app_id, peer_name))
         desc = {"cfg": self.cfg_name, "class": cls.__name__, "removed": [d.attr_name for d in removed],
                 "realm": realm, "app_id": app_id, "peer": peer_name}
-        replay = {**desc, "wire": wire.hex()}
+        replay = {**desc, "wire": wire.hex(), "own_before": list(dict.fromkeys(self.own_done))}
         if other:
             run.witness("delivery.unrelated_request_delivered", {**desc, "other": other[:2]}, replay)
         answers = [f for f in frames if not f.is_request and (f.h.hbh, f.h.e2e) == ids]
@@ -265,6 +266,20 @@ class Scenario:
                 run.cov["failed_avp_checked"] += 1
             else:
                 run.cov["answer_without_failed_avp_slot"] += 1
+
+    def own_traffic(self, tag, realm):
+        """The node's own application tries to send a request towards `realm` and gives up waiting at once (routed
+        to a peer, or not routable): what the node sends itself must not change how it treats what it receives."""
+        from vf.simnet.world import app_request
+        app = self.w.apps[tag]
+        res = {}
+        app_request(app, realm, 0.002, res, session=f"own;{len(self.own_done)}")
+        self.own_done.append((tag, realm))
+        k = f"{res.get('exc')}"
+        d = self.run.cov.setdefault("own_requests_between_cases", {})
+        d[k] = d.get(k, 0) + 1
+        self.h.settle()
+        self.w.observe()
 
     def base_traffic(self, peer_name):
         """DWR on a ready connection: answered, never shown to an application."""
@@ -420,6 +435,7 @@ def run_shard(spec):
                     for pn, ai, rl in routes:
                         sc.request_case(cls, removed, rl, ai, pn, rng, cls.__name__)
                 sc.base_traffic(rng.choice(peer_names))
+                sc.own_traffic(rng.choice([a["tag"] for a in cfg["apps"]]), rng.choice(realms + ["never.example"]))
                 if len(run.samples) < 3:
                     run.samples.append({"cfg": cfg_name, "class": cls.__name__,
                                         "required_scalars": [d.attr_name for d in req], "subsets": len(subsets)})
@@ -457,6 +473,8 @@ def _replay(obj):
         sc.open()
         cls = next(c for c in sc.md.msg_classes if c.__name__ == obj["class"])
         removed = [d for d in cls.avp_def if d.attr_name in obj["removed"]]
+        for tag, realm in obj.get("own_before", []):
+            sc.own_traffic(tag, realm)
         sc.request_case(cls, removed, obj["realm"], obj["app_id"], obj["peer"], random.Random(0), "replay")
     finally:
         sc.close()
